@@ -46,8 +46,12 @@ Fixpoint xl_span (p : byte -> bool) (s : bytes) : bytes * bytes :=
   | [] => ([], [])
   end.
 
+(* escapedAt (zero_alloc_tokenizer.go): the byte at a position is escaped when it is preceded by an odd
+   number of backslashes. The loop carries that parity: pb is true when the run of backslashes that ends
+   just before the current position has odd length. *)
+Definition xl_esc_next (pb : bool) (c : byte) : bool := if xl_is_bsl c then negb pb else false.
 Fixpoint xl_last_bsl (prev : bool) (l : bytes) : bool :=
-  match l with [] => prev | c :: r => xl_last_bsl (xl_is_bsl c) r end.
+  match l with [] => prev | c :: r => xl_last_bsl (xl_esc_next prev c) r end.
 
 Definition xl_cons (t : xtok) (o : outcome (list xtok)) : outcome (list xtok) :=
   match o with Ok l => Ok (t :: l) | Err e => Err e | OutOfFuel => OutOfFuel | Unmodelled => Unmodelled end.
@@ -64,8 +68,8 @@ Definition xl_number (minus : bool) (body : bytes) : bytes * bytes :=
                     end in
   ((if minus then [XMINUS] else []) ++ ds ++ frac, r2).
 
-(* The loop of TokenizeExpression. pb: the byte before the current position is a backslash
-   (false at position 0). st: Some (delimiter, reversed content so far) while inString. *)
+(* The loop of TokenizeExpression. pb: the current position is escaped (escapedAt; false at
+   position 0). st: Some (delimiter, reversed content so far) while inString. *)
 Fixpoint xl_loop (fuel : nat) (pb : bool) (st : option (byte * bytes)) (s : bytes) : outcome (list xtok) :=
   match fuel with
   | 0 => OutOfFuel
@@ -82,28 +86,28 @@ Fixpoint xl_loop (fuel : nat) (pb : bool) (st : option (byte * bytes)) (s : byte
         end
       else
       match st with
-      | Some (d, acc) => xl_loop f (xl_is_bsl c) (Some (d, c :: acc)) r
+      | Some (d, acc) => xl_loop f (xl_esc_next pb c) (Some (d, c :: acc)) r
       | None =>
         if xl_is_operator c then
           match r with
           | d :: r' =>
-              if xl_two_char c d then xl_cons (XT XOp [c; d]) (xl_loop f (xl_is_bsl d) None r')
-              else xl_cons (XT XOp [c]) (xl_loop f (xl_is_bsl c) None r)
+              if xl_two_char c d then xl_cons (XT XOp [c; d]) (xl_loop f (xl_last_bsl pb [c; d]) None r')
+              else xl_cons (XT XOp [c]) (xl_loop f (xl_esc_next pb c) None r)
           | [] => Ok [XT XOp [c]]
           end
-        else if xl_is_punct c then xl_cons (XT XPunct [c]) (xl_loop f (xl_is_bsl c) None r)
-        else if xl_is_space c then xl_loop f (xl_is_bsl c) None r
+        else if xl_is_punct c then xl_cons (XT XPunct [c]) (xl_loop f (xl_esc_next pb c) None r)
+        else if xl_is_space c then xl_loop f (xl_esc_next pb c) None r
         else if xl_ident_start c then
           let (a, rest) := xl_span xl_ident_cont r in
-          xl_cons (XT XName (c :: a)) (xl_loop f (xl_last_bsl false (c :: a)) None rest)
+          xl_cons (XT XName (c :: a)) (xl_loop f (xl_last_bsl pb (c :: a)) None rest)
         else if xl_is_digit c then
           let (v, rest) := xl_number false s in
-          xl_cons (XT XNumber v) (xl_loop f (xl_last_bsl false v) None rest)
+          xl_cons (XT XNumber v) (xl_loop f (xl_last_bsl pb v) None rest)
         else if cc_number_minus && Byte.eqb c XMINUS &&
                 match r with d :: _ => xl_is_digit d | [] => false end then
           let (v, rest) := xl_number true r in
-          xl_cons (XT XNumber v) (xl_loop f (xl_last_bsl false v) None rest)
-        else xl_loop f (xl_is_bsl c) None r          (* unrecognised byte: skipped *)
+          xl_cons (XT XNumber v) (xl_loop f (xl_last_bsl pb v) None rest)
+        else xl_loop f (xl_esc_next pb c) None r          (* unrecognised byte: skipped *)
       end
     end
   end.
